@@ -1241,6 +1241,23 @@ func (e *Enc) evalCallSpec(x SCall, ctx *specCtx) *Val {
 			e.fail("unknown type %s", tn)
 		}
 		return mathBool(fmt.Sprintf("(= (itag %s) %d)", v.L[0], e.tagOf(T)))
+	case "unbox":
+		// unbox(x, "typename"): the value held by interface value x read as that type
+		// (meaningful when tagis(x, "typename"); same terms as a type assertion)
+		v := e.evalSpec(x.Args[0], ctx)
+		tn := x.Args[1].(SLit).Val
+		T := e.resolveTypeName(tn, ctx.pkg)
+		if T == nil {
+			e.fail("unknown type %s", tn)
+		}
+		if _, isIface := T.Underlying().(*types.Interface); isIface {
+			e.fail("unbox: %s is an interface type", tn)
+		}
+		out := &Val{T: T}
+		for i := range typeLeaves(T) {
+			out.L = append(out.L, "("+e.unboxName(T, i)+" "+v.L[0]+")")
+		}
+		return out
 	case "int":
 		return e.evalSpec(x.Args[0], ctx)
 	case "binsize":
